@@ -51,6 +51,36 @@ def canon_value(value_type, value):
     return (getattr(value_type, "__name__", repr(value_type)), type(value).__name__, repr(value))
 
 
+def tok(spec):
+    """payload token of a node as the model sees it: plain value + 16 * number of supplemental semantic ids
+    (+ 64 for a root that carries the other id)"""
+    return spec["pay"] + 16 * spec.get("sup", 0) + 64 * spec.get("rid", 0)
+
+
+def qtok(q):
+    return q[2] + 8 * (q[3] if len(q) > 3 else 0)
+
+
+def sup_refs(n):
+    model = _m()
+    return [model.ExternalReference((model.Key(model.KeyTypes.GLOBAL_REFERENCE, f"urn:sup:{i}"),)) for i in range(n)]
+
+
+def sem_ref(v):
+    model = _m()
+    return None if v is None else model.ExternalReference((model.Key(model.KeyTypes.GLOBAL_REFERENCE, f"urn:sem:{v}"),))
+
+
+def sup_code(o):
+    """number of supplemental semantic ids, if they are the expected ones (read only AFTER the update)"""
+    ids = list(o.supplemental_semantic_id)
+    return len(ids) if ids == sup_refs(len(ids)) else -100
+
+
+def root_id(spec):
+    return "urn:c12:sm" + (":v2" if spec.get("rid") else "")
+
+
 def src_str(n):
     return "" if n == 0 else f"scheme:s{n}"
 
@@ -61,44 +91,59 @@ def build(spec, objs, root=False):
     cls = spec["cls"]
     quals = []
     exts = []
-    for qk, qoid, qv in spec["quals"]:
+    for qq in spec["quals"]:
+        qk, qoid, qv = qq[:3]
+        qsup = qq[3] if len(qq) > 3 else 0
+        qkw = dict(semantic_id=sem_ref(7 if qsup else None), supplemental_semantic_id=sup_refs(qsup))
         if qk.startswith("q:"):
-            q = model.Qualifier(qk[2:], model.datatypes.Int, qv)
+            q = model.Qualifier(qk[2:], model.datatypes.Int, qv, **qkw)
             quals.append(q)
         else:
-            q = model.Extension(qk[2:], model.datatypes.Int, qv)
+            q = model.Extension(qk[2:], model.datatypes.Int, qv, **qkw)
             exts.append(q)
         objs[qoid] = q
     kids = [build(k, objs) for k in spec["kids"]]
+    sup = sup_refs(spec.get("sup", 0))
     cat = model.MultiLanguageTextType({"en": f"d{spec['pay']}"})
     key = spec["key"]
-    sem = None
-    if spec.get("sem") is not None:
-        sem = model.ExternalReference((model.Key(model.KeyTypes.GLOBAL_REFERENCE, f"urn:sem:{spec['sem']}"),))
+    sem = sem_ref(spec.get("sem"))
+    common_kw = dict(qualifier=quals, extension=exts, semantic_id=sem, supplemental_semantic_id=sup)
     if cls == 9:
-        o = model.Submodel("urn:c12:sm", kids, id_short=key, description=cat, qualifier=quals, extension=exts)
+        o = model.Submodel(root_id(spec), kids, id_short=key, description=cat, **common_kw)
     elif cls == 0:
         vt, val = prop_values()[spec["pay"]]
-        o = model.Property(key, vt, val, qualifier=quals, extension=exts, semantic_id=sem)
+        o = model.Property(key, vt, val, **common_kw)
     elif cls in (5, 6):
         ref = model.ModelReference((model.Key(model.KeyTypes.SUBMODEL, "urn:c12:sm"),), model.Submodel)
         if cls == 5:
-            o = model.RelationshipElement(key, ref, ref, description=cat, qualifier=quals, extension=exts)
+            o = model.RelationshipElement(key, ref, ref, description=cat, **common_kw)
         else:
-            o = model.AnnotatedRelationshipElement(key, ref, ref, annotation=kids, description=cat,
-                                                   qualifier=quals, extension=exts)
+            o = model.AnnotatedRelationshipElement(key, ref, ref, annotation=kids, description=cat, **common_kw)
     elif cls == 7:
-        o = model.Range(key, model.datatypes.Int, description=cat, qualifier=quals, extension=exts)
+        o = model.Range(key, model.datatypes.Int, description=cat, **common_kw)
     elif cls == 1:
-        o = model.SubmodelElementCollection(key, kids, description=cat, qualifier=quals, extension=exts)
+        o = model.SubmodelElementCollection(key, kids, description=cat, **common_kw)
     elif cls == 2:
-        o = model.MultiLanguageProperty(key, description=cat, qualifier=quals, extension=exts)
+        o = model.MultiLanguageProperty(key, description=cat, **common_kw)
     elif cls == 3:
-        o = model.SubmodelElementList(key, model.Property, kids, value_type_list_element=model.datatypes.Int,
-                                      description=cat, qualifier=quals, extension=exts)
+        # "lp": the list was edited locally before the update, so that the generated idShorts of its children are
+        # not aligned with their positions any more (1: first child inserted at the front afterwards,
+        # 2: built with a leading dummy that is deleted again, 3: first child popped and re-inserted at the front)
+        lp = spec.get("lp", 0) if kids else 0
+        first = kids[1:] if lp == 1 else ([model.Property(None, model.datatypes.Int, 0, semantic_id=kids[0].semantic_id)] + kids
+                                           if lp == 2 else kids)
+        o = model.SubmodelElementList(key, model.Property, first, value_type_list_element=model.datatypes.Int,
+                                      description=cat, **common_kw)
+        if lp == 1:
+            o.value.insert(0, kids[0])
+        elif lp == 2:
+            o.value.pop(0)
+        elif lp == 3:
+            x = o.value.pop(0)
+            o.value.insert(0, x)
     elif cls == 4:
         slots = [[k for k, ks in zip(kids, spec["kids"]) if ks.get("slot", 0) == i] for i in range(3)]
-        o = model.Operation(key, slots[0], slots[1], slots[2], description=cat, qualifier=quals, extension=exts)
+        o = model.Operation(key, slots[0], slots[1], slots[2], description=cat, **common_kw)
     else:
         raise AssertionError(cls)
     o.source = src_str(spec["src"])
@@ -136,17 +181,18 @@ def kid_sets(o):
 
 def payload(o):
     model = _m()
+    extra = 16 * sup_code(o) + (64 if getattr(o, "id", None) == "urn:c12:sm:v2" else 0)
     if isinstance(o, model.Property):
         got = canon_value(o.value_type, o.value)
         for i, (vt, val) in enumerate(prop_values()):
             if canon_value(vt, val) == got:
-                return i
+                return i + extra
         return -1
     try:
         c = o.description["en"]
     except Exception:
         return -1
-    return int(c[1:]) if isinstance(c, str) and c[1:].isdigit() else -1
+    return int(c[1:]) + extra if isinstance(c, str) and c[1:].isdigit() else -1
 
 
 def src_code(o):
@@ -170,7 +216,8 @@ def encode(o, objs, depth=0, rows=None):
     row = [depth, oid_of(objs, o), cls_code(o), KEYS.index(o.id_short) if o.id_short in KEYS else -1,
            payload(o), src_code(o)]
     for qk, q in sorted(quals, key=lambda t: QKEYS.index(t[0]) if t[0] in QKEYS else 99):
-        row += [QKEYS.index(qk) if qk in QKEYS else -1, oid_of(objs, q), q.value if isinstance(q.value, int) else -1]
+        row += [QKEYS.index(qk) if qk in QKEYS else -1, oid_of(objs, q),
+                q.value + 8 * sup_code(q) if isinstance(q.value, int) else -1]
     rows.append(row)
     for S in kid_sets(o):
         for k in S:
@@ -180,7 +227,7 @@ def encode(o, objs, depth=0, rows=None):
 
 # ----------------------------------------------------------------------------- oracle
 
-def check_equal(o, spec, path, bad, root=True, in_list=False):
+def check_equal(o, spec, path, bad, root=True, in_list=False, check_source=True):
     """canonical equality of the object tree with the specification of the new tree"""
     if cls_code(o) != spec["cls"]:
         bad.append(("class", f"{path}: class {type(o).__name__} differs from the copy's (code {spec['cls']})"))
@@ -192,19 +239,24 @@ def check_equal(o, spec, path, bad, root=True, in_list=False):
     got_sem = None if got_sem is None else int(got_sem.key[0].value.rsplit(":", 1)[1])
     if got_sem != want_sem:
         bad.append(("attr", f"{path}: semantic_id {got_sem} != {want_sem}"))
-    if payload(o) != spec["pay"]:
-        bad.append(("attr", f"{path}: value (canonical form incl. XSD type) / description: token {payload(o)} != {spec['pay']}"))
-    if not root and src_code(o) != spec["src"]:
+    if cls_code(o) == 9 and o.id != root_id(spec):
+        bad.append(("attr", f"{path}: id {o.id!r} != {root_id(spec)!r}"))
+    if sup_code(o) != spec.get("sup", 0):
+        bad.append(("supplemental-semantic-id", f"{path}: {len(o.supplemental_semantic_id)} supplemental semantic ids, "
+                                                f"the copy has {spec.get('sup', 0)}"))
+    elif payload(o) != tok(spec):
+        bad.append(("attr", f"{path}: value (canonical form incl. XSD type) / description: token {payload(o)} != {tok(spec)}"))
+    if check_source and not root and src_code(o) != spec["src"]:
         bad.append(("child-source", f"{path}: source of an embedded object not taken from the copy"))
-    have = {("q:" + q.type): q.value for q in getattr(o, "qualifier", [])}
-    have.update({("x:" + e.name): e.value for e in o.extension})
-    want = {qk: qv for qk, _, qv in spec["quals"]}
+    have = {("q:" + q.type): q.value + 8 * sup_code(q) for q in getattr(o, "qualifier", [])}
+    have.update({("x:" + e.name): e.value + 8 * sup_code(e) for e in o.extension})
+    want = {q[0]: qtok(q) for q in spec["quals"]}
     if set(have) != set(want):
         bad.append(("qualifier-set", f"{path}: qualifiers/extensions {sorted(have)} != {sorted(want)}"))
     else:
         for k in want:
             if have[k] != want[k]:
-                bad.append(("qualifier-value", f"{path}: value of {k} is {have[k]}, the copy has {want[k]}"))
+                bad.append(("qualifier-value", f"{path}: value / supplemental semantic ids of {k}: token {have[k]}, the copy has {want[k]}"))
     sets = kid_sets(o)
     if spec["cls"] == 3:
         got = list(sets[0]) if sets else []
@@ -212,7 +264,7 @@ def check_equal(o, spec, path, bad, root=True, in_list=False):
             bad.append(("children", f"{path}: list has {len(got)} children, the copy has {len(spec['kids'])}"))
         else:
             for i, (g, ks) in enumerate(zip(got, spec["kids"])):
-                check_equal(g, ks, f"{path}[{i}]", bad, root=False, in_list=True)
+                check_equal(g, ks, f"{path}[{i}]", bad, root=False, in_list=True, check_source=check_source)
         return
     for si, S in enumerate(sets):
         wantk = {ks["key"]: ks for ks in spec["kids"] if (spec["cls"] != 4 or ks.get("slot", 0) == si)}
@@ -220,7 +272,7 @@ def check_equal(o, spec, path, bad, root=True, in_list=False):
         if set(gotk) != set(wantk):
             bad.append(("children", f"{path}: children {sorted(map(str, gotk))} != {sorted(wantk)}"))
         for k in set(gotk) & set(wantk):
-            check_equal(gotk[k], wantk[k], f"{path}/{k}", bad, root=False)
+            check_equal(gotk[k], wantk[k], f"{path}/{k}", bad, root=False, check_source=check_source)
     if not sets and spec["kids"]:
         bad.append(("children", f"{path}: no child collection"))
 
@@ -276,11 +328,72 @@ def all_nodes(spec):
         yield from all_nodes(k)
 
 
+def assign(o, spec, objs):
+    """parallel walk over a decoded tree and its specification: identity tokens and the (never serialised) source"""
+    objs[spec["oid"]] = o
+    o.source = src_str(spec["src"])
+    qs = {("q:" + q.type): q for q in getattr(o, "qualifier", [])}
+    qs.update({("x:" + e.name): e for e in o.extension})
+    for qq in spec["quals"]:
+        objs[qq[1]] = qs[qq[0]]
+    sets = kid_sets(o)
+    if spec["cls"] == 3:
+        for g, ks in zip(list(sets[0]), spec["kids"]):
+            assign(g, ks, objs)
+    else:
+        for si, S in enumerate(sets):
+            got = {g.id_short: g for g in S}
+            for ks in spec["kids"]:
+                if spec["cls"] != 4 or ks.get("slot", 0) == si:
+                    assign(got[ks["key"]], ks, objs)
+
+
+def load_copy(spec, objs):
+    """the copy the way a backend hands it to update_from(): decoded from its JSON document and not touched
+    afterwards (no attribute of the decoded objects is read before the update, except to walk the tree)"""
+    from basyx.aas.adapter.json import json_serialization, json_deserialization
+    txt = json.dumps(build(spec, {}, True), cls=json_serialization.AASToJsonEncoder)
+    loaded = json.loads(txt, cls=json_deserialization.AASFromJsonDecoder)
+    assign(loaded, spec, objs)
+    return loaded
+
+
+def run_http(case):
+    """the same pair through a caller of update_from: PUT /submodels/{id} on the HTTP adapter, while the application
+    holds the live objects.  Returns failures [(class, msg)]."""
+    import base64
+    from werkzeug.test import Client
+    from basyx.aas.adapter import aasx
+    from basyx.aas.adapter.http import WSGIApp
+    from basyx.aas.adapter.json import json_serialization
+    model = _m()
+    objs = {}
+
+    def nosrc(n):       # no backend sources here: the adapter would call update()/commit() on them
+        return dict(n, src=0, kids=[nosrc(k) for k in n["kids"]])
+    case = dict(case, live=nosrc(case["live"]), new=nosrc(case["new"]))
+    live = build(case["live"], objs, True)
+    body = json.dumps(build(case["new"], {}, True), cls=json_serialization.AASToJsonEncoder).encode()
+    client = Client(WSGIApp(model.DictObjectStore([live]), aasx.DictSupplementaryFileContainer()))
+    ident = base64.urlsafe_b64encode(live.id.encode()).decode().rstrip("=")
+    resp = client.put(f"/api/v3.0/submodels/{ident}", data=body, content_type="application/json")
+    bad = []
+    if resp.status_code != 204:
+        return [("status", f"PUT /submodels/{{id}} answered {resp.status_code}")]
+    check_equal(live, case["new"], "", bad, check_source=False)
+    check_identity(live, case["live"], case["new"], objs, "", bad)
+    try:
+        check_c01(live, "", bad)
+    except Exception as e:
+        bad.append(("c01", f"public query raised {type(e).__name__}: {e}"))
+    return bad
+
+
 def run_sdk(case):
-    """case = {live, new, us}.  Returns (rows or None, failures [(class, msg)])."""
+    """case = {live, new, us, via}.  Returns (rows or None, failures [(class, msg)])."""
     objs = {}
     live = build(case["live"], objs, True)
-    new = build(case["new"], objs, True)
+    new = load_copy(case["new"], objs) if case.get("via") == "json" else build(case["new"], objs, True)
     bad = []
     old_src = live.source
     try:
@@ -336,7 +449,12 @@ class Gen:
     def quals(self):
         r = self.rng
         ks = [k for k in QKEYS if r.random() < 0.3]
-        return [[k, self.oid(), r.randrange(3)] for k in ks]
+        return [[k, self.oid(), r.randrange(3), r.choice([0, 0, 0, 1, 2])] for k in ks]
+
+    def newsup(self, old):
+        """supplemental semantic ids of the copy: unchanged / all removed / anything"""
+        x = self.rng.random()
+        return old if x < 0.5 else 0 if x < 0.8 else self.rng.choice([0, 1, 2])
 
     def node(self, depth, key, cls=None, slot=None):
         r = self.rng
@@ -345,6 +463,8 @@ class Gen:
             cls = r.choice(choices) if depth < 3 else r.choice([0, 0, 2, 5, 7])
         n = {"oid": self.oid(), "cls": cls, "key": key, "pay": r.randrange(NPROP if cls == 0 else 4),
              "src": r.choice([0, 0, 1, 2]), "quals": self.quals(), "kids": []}
+        n["sup"] = r.choice([0, 0, 0, 1, 2])
+        n["sem"] = 7 if n["sup"] else None
         if slot is not None:
             n["slot"] = slot
         if cls in (1, 9, 4):
@@ -358,9 +478,10 @@ class Gen:
             sem = r.choice([None, 0, 1])
             for _ in range(r.choice([0, 1, 2, 3])):
                 k = self.node(depth + 1, None, cls=0)
-                k["sem"] = sem
+                k["sem"], k["sup"] = sem, 0
                 k["pay"] = r.choice([0, 2, 6])      # the list is typed xs:int
                 n["kids"].append(k)
+            n["lp"] = r.choice([0, 1, 2, 3])        # local edits before the update (generated ids vs positions)
         return n
 
     def edit(self, n, depth=0):
@@ -375,16 +496,21 @@ class Gen:
             pay = r.randrange(NPROP if n["cls"] == 0 else 4)
         m = {"oid": self.oid(), "cls": n["cls"], "key": n["key"], "pay": pay,
              "src": n["src"] if r.random() < 0.6 else r.choice([0, 1, 2]), "quals": [], "kids": []}
+        m["sup"] = self.newsup(n.get("sup", 0))
+        m["sem"] = 7 if m["sup"] else None
+        if depth == 0 and r.random() < 0.15:
+            m["rid"] = 1                                   # the copy carries another id
         if "slot" in n:
             m["slot"] = n["slot"] if (r.random() < 0.8 or not self.extra) else r.randrange(3)
-        for qk, _, qv in n["quals"]:
+        for qq in n["quals"]:
+            qk, qv, qs = qq[0], qq[2], (qq[3] if len(qq) > 3 else 0)
             x = r.random()
             if x < 0.15:
                 continue
-            m["quals"].append([qk, self.oid(), qv if x < 0.6 else r.randrange(3)])
+            m["quals"].append([qk, self.oid(), qv if x < 0.6 else r.randrange(3), self.newsup(qs)])
         for k in QKEYS:
             if k not in [q[0] for q in m["quals"]] and r.random() < 0.1:
-                m["quals"].append([k, self.oid(), r.randrange(3)])
+                m["quals"].append([k, self.oid(), r.randrange(3), r.choice([0, 0, 1])])
         if n["cls"] == 3:
             kids = list(n["kids"])
             r.shuffle(kids)
@@ -395,7 +521,7 @@ class Gen:
                 m["kids"].append(self.node(depth + 1, None, cls=0))
             sem = r.choice([None, 0, 1]) if r.random() < 0.5 else (n["kids"][0].get("sem") if n["kids"] else None)
             for k in m["kids"]:
-                k["sem"] = sem
+                k["sem"], k["sup"] = sem, 0
                 if k["pay"] not in (0, 2, 6):
                     k["pay"] = r.choice([0, 2, 6])
             return m
@@ -437,7 +563,7 @@ def gen_case(rng, extra=False):
         new = g.edit(live)
     else:
         new = g.node(0, "a", cls=9)      # unrelated pair
-    return {"live": live, "new": new, "us": rng.randrange(2)}
+    return {"live": live, "new": new, "us": rng.randrange(2), "via": rng.choice(["ctor", "json"])}
 
 
 # ----------------------------------------------------------------------------- Coq terms
@@ -447,9 +573,9 @@ def nat(x):
 
 
 def coq_node(n):
-    quals = coq_list(f"({nat(QKEYS.index(q[0]))}, ({nat(q[1])}, {nat(q[2])}))" for q in n["quals"])
+    quals = coq_list(f"({nat(QKEYS.index(q[0]))}, ({nat(q[1])}, {nat(qtok(q))}))" for q in n["quals"])
     kids = coq_list(coq_node(k) for k in n["kids"])
-    return (f"Node {nat(n['oid'])} {nat(n['cls'])} {nat(KEYS.index(n['key']))} {nat(n['pay'])} {nat(n['src'])} "
+    return (f"Node {nat(n['oid'])} {nat(n['cls'])} {nat(KEYS.index(n['key']))} {nat(tok(n))} {nat(n['src'])} "
             f"{quals} {kids}")
 
 
@@ -539,6 +665,21 @@ def run(chk):
             tcases.append(case)
         if len(chk.samples) < 3 and nl >= 5 and modelled:
             chk.samples.append({"case": case, "sdk_rows": rows})
+    # the same pairs through a caller: HTTP PUT /submodels/{id} while the application holds the live objects
+    nhttp = 150 if chk.tier == "quick" else 1500
+    for case in [c for c in cases if not has_extra(c["live"]) and not has_extra(c["new"])][:nhttp]:
+        chk.count("http_put_cases")
+        try:
+            bad = run_http(case)
+        except Exception as e:
+            bad = [("harness", f"{type(e).__name__}: {e}")]
+        for cls in sorted({b[0] for b in bad}):
+            sig = f"C12:http-put:{cls}"
+            if sig not in reported:
+                reported.add(sig)
+                small = shrink(case, lambda c2: cls in [b[0] for b in run_http(c2)])
+                msg = [b[1] for b in run_http(small) if b[0] == cls]
+                chk.fail(sig, msg[0] if msg else cls, {"case": small, "how": "tools/c12.py run_http(case)"})
     badi, errs = common.run_mismatch_shards("C12", PRELUDE, terms, "check_case", shard=250 if chk.tier == "quick" else 500)
     chk.traces = common.run_mismatch_shards.evaluated - len(badi)
     for e in errs:
@@ -582,6 +723,13 @@ def run(chk):
 def replay(path):
     r = json.load(open(path))
     rp = r.get("replay") or {}
+    if "case" in rp and "run_http" in rp.get("how", ""):
+        bad = run_http(rp["case"])
+        for b in bad[:8]:
+            print("oracle:", b)
+        if not bad:
+            print("oracle: holds")
+        return 1 if bad else 0
     if "case" in rp:
         rows, bad = run_sdk(rp["case"])
         for b in bad[:8]:
